@@ -13,7 +13,7 @@ func init() {
 	register(&Prop{
 		ID: "C07", Level: "exploration",
 		Rule: "one case = two real routers with the same options: A is driven through a seeded mutation history (inserts, updates, deletes, truncations, re-insertions, committed/aborted/panicked transactions, copy cache capacity drawn); B is fresh and receives A's final set in a random order (small sets: a random permutation). Every probe derived from the patterns involved is sent to both through Lookup (route, parameters, tsr flag), Reverse and ServeHTTP (handler, parameters, status, Allow set, Location) and the answers must be equal; no reference model takes part in the comparison. Any difference is a violation (in 80 000 exploratory runs equal sets always produced equal answers, including the C08 known findings, which are a function of the set). Non-trivial: A's history contains at least one effective delete or truncate and the final set has at least 3 routes; distinct = hash of (A's history, B's order).",
-		Run:  runC07, Quick: 12000, Thorough: 1200000,
+		Run:  runC07, Quick: 64000, Thorough: 9600000,
 		Real: commonReal, Stub: commonStub,
 		Domain: []string{"as C01/C08; both routers are built in the same process with the same generated options"},
 	})
